@@ -48,7 +48,7 @@ PLAN = {
     "quick": {
         "fs": {"exh": [(1, 3, 1), (2, 2, 1)], "rand": (300, 5, 2), "shards": 3},
         "poll1": {"exh": [(1, 3, 1), (2, 2, 1)], "rand": (600, 6, 2), "shards": 1},
-        "pollN": {"exh": [(2, 2, 0), (1, 2, 1)], "rand": (100, 5, 2), "shards": 1, "refused_budget": 8},
+        "pollN": {"exh": [(2, 2, 0), (1, 2, 1)], "rand": (100, 5, 2), "shards": 1, "refused_budget": 5},
         "informer": {"exh": [(1, 3, 1), (2, 2, 1)], "rand": (800, 6, 2), "shards": 1},
     },
     "thorough": {
@@ -91,7 +91,7 @@ def design_run(work, verdict, tier):
         return r
 
     def mutant(kind, m, strict, expect):
-        cfg = mc_cfg(work, "ProviderMC_%s_%s.cfg" % (kind, m), kind, m, strict, maxenv=4, full=False)
+        cfg = mc_cfg(work, "ProviderMC_%s_%s.cfg" % (kind, m), kind, m, strict, maxenv=3, full=False)
         r = tlc(work, "ProviderMC", cfg, workers=2, timeout=900, heap="4g")
         temporal = re.findall(r"Temporal property (\S+) was violated", r.out)
         got = r.violated + temporal
